@@ -46,7 +46,7 @@ REQUIRED = dict(monitors=['restricted-equals-full', 'restricted-grid-is-subset',
                          'emission:same-size-window', 'emission:star-written-between-evaluations',
                          'request:work-array-refilled-in-place', 'request:foreign-ending-on-an-end-point',
                          'table:empty-far-wing:exp', 'table:empty-far-wing:linear', 'request:own-sub-range-clear-of-the-empty-wing',
-                         'request:foreign-a-hair-off-the-native-points', 'sequence:own-grid-then-same-ends-and-count', 'history:dozens-of-ranges-then-earlier-ranges-again'])
+                         'request:foreign-a-hair-off-the-native-points', 'sequence:own-grid-then-same-ends-and-count', 'history:dozens-of-ranges-then-earlier-ranges-again', 'request:same-range-on-two-tables-of-one-molecule'])
 CUT = math.exp(-10.0)
 
 
@@ -581,6 +581,25 @@ def wl_opacity(ctx, rng):
     with np.errstate(all='ignore'):
         again = np.array(op.opacity(t, p))
     ctx.check('opacity-native-unchanged-after-requests', np.array_equal(again, fullv, equal_nan=True), layout=layout, sequence=done)
+    if ctx.case['index'] % 6 == 2 and clear is None:
+        # a SECOND table for the same molecule name in the same process (another line list, a higher-resolution table loaded
+        # after the first): both are asked for the very same ranges; each answers from its own native points
+        op2, wn2, T2, P2 = make_opacity(rng, layout)
+        t2 = float(rng.uniform(T2[0] * 0.7, T2[-1] * 1.2))
+        p2 = float(10 ** rng.uniform(np.log10(P2[0]) - 1, np.log10(P2[-1]) + 1))
+        with np.errstate(all='ignore'):
+            fullv2 = np.array(op2.opacity(t2, p2))
+        a_, b_ = max(wn[0], wn2[0]), min(wn[-1], wn2[-1])
+        for _ in range(3):
+            if b_ <= a_:
+                break
+            lo_, hi_ = sorted(rng.uniform(a_, b_, 2))
+            grid = np.unique(np.linspace(lo_, hi_, int(rng.integers(2, 12))))
+            if len(grid) < 2 or not np.any((wn >= grid.min()) & (wn <= grid.max())) or not np.any((wn2 >= grid.min()) & (wn2 <= grid.max())):
+                continue
+            judge_request(ctx, op, t, p, grid, fullv, wn, layout, 'same-range-on-two-tables-of-one-molecule')
+            judge_request(ctx, op2, t2, p2, grid.copy(), fullv2, wn2, layout, 'same-range-on-two-tables-of-one-molecule')
+            ctx.observe('request:same-range-on-two-tables-of-one-molecule')
     ctx.sig('opacity', layout, len(wn), tuple(done), round(t, 3))
 
 
